@@ -27,10 +27,13 @@ ASSUMPTIONS = [
     "at the latest when the transport is gone",
     "requests outstanding: one event issues call, acknowledged publish, subscribe, register, "
     "unsubscribe and unregister at once (after a SUBSCRIBED/REGISTERED round trip)",
-    "illegal messages: mode 0 one of {GOODBYE, ERROR | WELCOME, CHALLENGE} per history as an event; "
+    "illegal messages: mode 0 one illegal message per history as an event, GOODBYE before / WELCOME "
+    "after establishment (thorough: also ERROR / CHALLENGE); "
     "mode 1 all kinds (every message type except WELCOME/ABORT/CHALLENGE before establishment; HELLO, "
     "WELCOME, CHALLENGE, AUTHENTICATE and the client-to-router types afterwards) probed at every "
     "position, each required to raise ProtocolError and leave the snapshot digest unchanged",
+    "burst family: every pair (legal router message, then a legal router message / transport "
+    "loss / illegal HELLO) delivered within the same event-loop turn, checked at quiescence",
     "after a completed GOODBYE exchange / ABORT the router is silent (DESIGN C06); API calls made in "
     "the window between session end and transport loss may return a pending result if it is failed "
     "when the transport goes (counted as late_request_pending_until_close)",
@@ -68,7 +71,9 @@ def main(ctx):
                 for e0 in range(FIX):
                     for e1 in range(FIX + 2):
                         jobs.append({"auth": auth, "mode": mode, "e0": e0, "e1": e1, "depth": d,
-                                     "tier": menus})
+                                     "tier": menus, "illegal_kinds": 2 if tier == "thorough" else 1})
+    for auth in (0, 1):
+        jobs.append({"kind": "burst", "auth": auth, "mode": 0, "depth": 2, "tier": "quick"})
     for fw in ("tx", "aio"):
         ctx.pmap({"fw": fw, "nvx": "1"}, "props.c06:job", jobs, chunksize=4)
     c = ctx.counters
@@ -88,7 +93,8 @@ def main(ctx):
             "goodbye_by_peer_after_ours", "leave_twice", "leave_not_joined", "router_abort",
             "two_challenge_rounds", "pending_failed_by_goodbye", "pending_failed_by_loss",
             "api_after_end_checked", "late_requests_checked", "onleave_after_failed_challenge",
-            "executions_full_depth", "nontrivial"]
+            "executions_full_depth", "nontrivial", "burst_execs", "burst:WELCOME+GOODBYE",
+            "burst:CHALLENGE+ABORT", "burst:WELCOME+lose"]
     if tier == "thorough":
         need += ["beh:onWelcome:pending", "beh:onChallenge:pending", "beh:onJoin:pending",
                  "beh:onLeave:pending", "ev:done"]
@@ -224,8 +230,10 @@ class Exec:
                          "expected ProtocolError, got %s; callbacks %r sent %r" % (H.exc_brief(exc), cbs, sent))
             if cbs or sent or calls:
                 self.bad("illegal-had-effect", what, ctx, "callbacks %r sent %r transport %r" % (cbs, sent, calls))
-            if dg0 is not None and dg0 != self.digest():
-                self.bad("illegal-changed-state", what, ctx, "snapshot differs after the rejected message")
+            if dg0 is not None:
+                self.last_dg = self.digest()
+                if dg0 != self.last_dg:
+                    self.bad("illegal-changed-state", what, ctx, "snapshot differs after the rejected message")
             return
         if exc is not None:
             if H.is_protocol_error(exc):
@@ -297,10 +305,11 @@ class Exec:
                 evs.append(("done", n, "return"))
                 evs.append(("done", n, "raise"))
         if self.mode == 0 and not self.illegal_used and not hs:
+            nk = 2 if self.a.get("illegal_kinds", 1) >= 2 else 1
             if m.pre():
-                evs += [("illegal", k) for k in ILLEGAL_EVENT["pre"]]
+                evs += [("illegal", k) for k in ILLEGAL_EVENT["pre"][:nk]]
             elif m.established():
-                evs += [("illegal", k) for k in ILLEGAL_EVENT["post"]]
+                evs += [("illegal", k) for k in ILLEGAL_EVENT["post"][:nk]]
         if self.leaves < 2:
             evs.append(("leave",))
         if self.disconnects < 2:
@@ -326,8 +335,9 @@ class Exec:
         if "onWelcome" in self.l1.session.pending_cb or "onChallenge" in self.l1.session.pending_cb:
             return
         ctx = self.phase_ctx()
+        self.last_dg = self.digest()
         for k in kinds:
-            dg0 = self.digest()
+            dg0 = self.last_dg
             exc = self.l1.deliver(_msg(k))
             self.stats["probes"] += 1
             self.stats["transitions"] += 1
@@ -477,6 +487,72 @@ class Exec:
         if had_pending:
             st["pending_failed_by_loss"] += 1
 
+    def burst(self):
+        """two events in the same loop turn (asyncio: no loop iteration in between; Twisted:
+        nothing is deferred anyway), then quiescence; the union of the expectations must hold"""
+        H = self.H
+        l1, m, s = self.l1, self.model, self.l1.session
+        trig = {"WELCOME": "onWelcome", "CHALLENGE": "onChallenge", "ABORT": "onLeave", "GOODBYE": "onLeave"}
+        first = m.legal_router()
+        e1 = first[self.ch.choose(len(first), "burst1")]
+        self.trace.append(["router", e1, "no-settle"])
+        self.chosen = []
+        ctx = self.phase_ctx()
+        exc1 = l1.deliver(_msg(e1), settle=False)
+        x1 = m.router(e1, dict(self.chosen).get(trig[e1]))
+        second = [("router", r) for r in m.legal_router()] + [("lose",)]
+        if m.established() or m.pre():
+            second.append(("illegal", "HELLO"))
+        ev2 = second[self.ch.choose(len(second), "burst2")]
+        self.trace.append(list(ev2) + ["same-turn"])
+        self.chosen = []
+        self.stats["transitions"] += 2
+        tag = "burst-after-" + e1
+        self.stats["burst:%s+%s" % (e1, ev2[1] if len(ev2) > 1 else ev2[0])] += 1
+        exc2 = None
+        x2 = None
+        if ev2[0] == "router":
+            was_closing = m.phase == "closing"
+            exc2 = l1.deliver(_msg("GOODBYE_REPLY" if (ev2[1] == "GOODBYE" and was_closing) else ev2[1]), settle=False)
+            x2 = m.router(ev2[1], dict(self.chosen).get(trig[ev2[1]]))
+        elif ev2[0] == "illegal":
+            exc2 = l1.deliver(_msg(ev2[1]), settle=False)
+            if exc2 is None or not H.is_protocol_error(exc2):
+                self.bad("illegal-accepted", ev2[1], tag, "got %s" % H.exc_brief(exc2))
+            exc2 = None
+        elif ev2[0] == "leave":
+            r = l1.api(s.leave)
+            x2 = m.leave()
+            if r[0] == "raise" and not x2.get("api_may_raise"):
+                self.bad("escape", "leave|" + type(r[1]).__name__, tag, H.exc_brief(r[1]))
+        else:
+            exc2 = l1.lose(True, settle=False)
+            x2 = m.lost()
+        l1.settle()
+        if exc1 is not None:
+            self.bad("legal-rejected" if H.is_protocol_error(exc1) else "escape", e1, ctx, H.exc_brief(exc1))
+        if exc2 is not None:
+            self.bad("legal-rejected" if H.is_protocol_error(exc2) else "escape",
+                     ev2[1] if len(ev2) > 1 else ev2[0], tag,
+                     "%s delivered in the same loop turn as %s raised %s" % (ev2, e1, H.exc_brief(exc2)))
+        exp = self.model._exp()
+        for x in (x1, x2):
+            if x:
+                for k in ("cb_must", "cb_may", "send_must", "send_may"):
+                    exp[k] = exp[k] + list(x[k])
+                exp["close_may"] = True
+                if x.get("api_may_raise"):
+                    exp["api_may_raise"] = True
+        if m.phase == "gone":
+            # lost in the same turn: which of the first event's callbacks still run is left open
+            exp["cb_may"] = exp["cb_may"] + [c for c in exp["cb_must"] if c != "onDisconnect"]
+            exp["cb_must"] = [c for c in exp["cb_must"] if c == "onDisconnect"]
+            exp["send_may"] = exp["send_may"] + exp["send_must"]
+            exp["send_must"] = []
+        if not self.viol:
+            self.check(exp, None, "%s+%s" % (e1, ev2[-1] if ev2[0] != "lose" else "lose"), tag)
+        self.invariants(tag)
+
     # -- after the end ---------------------------------------------------------------------
     def api_probe(self, tag, ctx, strict):
         """API calls on an ended session: must raise or give an already failed result"""
@@ -541,6 +617,10 @@ def run_exec(ch, a, stats, states):
         ex.bad("open", "onOpen", "start", "callbacks %r sent %r" % (cbs, sent))
     depth = a["depth"]
     n = 0
+    if a.get("kind") == "burst":
+        stats["burst_execs"] += 1
+        ex.burst()
+        depth = 0
     while n < depth and ex.model.phase != "gone" and not ex.viol:
         if ex.mode == 1:
             ex.probes()
@@ -548,7 +628,7 @@ def run_exec(ch, a, stats, states):
         ev = ex.pick_event(evs)
         ex.apply(ev)
         n += 1
-    for i in range(ex.nev, 2):
+    for i in range(ex.nev, 0 if a.get("kind") == "burst" else 2):
         if a.get("e%d" % i, 0) != 0:
             raise ShardEmpty()      # the execution ended before this shard's fixed choice
     if n == depth:
